@@ -141,6 +141,7 @@ func factsC09() {
 	oa := methodDecl(back, "updater", "buildBackendOAuth")
 	addStrList("c09FindBackend", c08Skeleton(back, methodDecl(back, "updater", "findBackend")), "backend.go updater.findBackend: skeleton (the only cross-namespace guard of the oauth site)")
 	addStrList("c09FindBackendRanges", c18Ranges(back, methodDecl(back, "updater", "findBackend")), "backend.go updater.findBackend: what the loops range over")
+	addStrList("c09FindBackendSort", c09CallArgs(back, methodDecl(back, "updater", "findBackend"), "sort.Strings", 0, 1), "backend.go updater.findBackend: the hostnames are sorted before the lookup (58bb97c)")
 	addStrList("c09OAuthFindBackendArgs", c09CallArgs(back, oa, "c.findBackend", 0, 9), "backend.go buildBackendOAuth: arguments of every findBackend call")
 	var oans []string
 	ast.Inspect(oa, func(n ast.Node) bool {
@@ -189,4 +190,139 @@ func factsC09() {
 	addStrList("c09NewConverterDynamic", c09CallArgs(ing, funcDecl(ing, "NewIngressConverter"), "annotations.UpdateDynamicConfig", 0, 2),
 		"ingress.go NewIngressConverter: arguments of annotations.UpdateDynamicConfig")
 	addStrList("c09UpdateDynamicConfig", c08Skeleton(upd, funcDecl(upd, "UpdateDynamicConfig")), "annotations/updater.go UpdateDynamicConfig: skeleton")
+	factsC09Ctx()
+}
+
+// c09SourceOf: how the annotations.Source handed to the idx-th call of `callee` inside node is built:
+// the fields of a composite literal `&annotations.Source{...}`, or - when the argument is anything else -
+// its source text followed by every assignment to the identifier it names
+func c09SourceOf(rel string, node ast.Node, callee string, idx int) []string {
+	var call *ast.CallExpr
+	n := 0
+	ast.Inspect(node, func(x ast.Node) bool {
+		if c, ok := x.(*ast.CallExpr); ok && c08Src(rel, c.Fun) == callee {
+			if n == idx && call == nil {
+				call = c
+			}
+			n++
+		}
+		return true
+	})
+	if call == nil || len(call.Args) == 0 {
+		return []string{"<no call of " + callee + ">"}
+	}
+	arg := call.Args[0]
+	e := arg
+	if u, ok := e.(*ast.UnaryExpr); ok && u.Op == token.AND {
+		e = u.X
+	}
+	if cl, ok := e.(*ast.CompositeLit); ok {
+		res := []string{c08Src(rel, cl.Type)}
+		for _, el := range cl.Elts {
+			res = append(res, c08Src(rel, el))
+		}
+		return res
+	}
+	res := []string{c08Src(rel, arg)}
+	if id, ok := e.(*ast.Ident); ok {
+		ast.Inspect(node, func(x ast.Node) bool {
+			if a, ok := x.(*ast.AssignStmt); ok {
+				for _, l := range a.Lhs {
+					if t := c08Src(rel, l); t == id.Name || strings.HasPrefix(t, id.Name+".") {
+						var r ast.Expr
+						if len(a.Rhs) == 1 {
+							r = a.Rhs[0]
+							if u, ok := r.(*ast.UnaryExpr); ok && u.Op == token.AND {
+								r = u.X
+							}
+						}
+						if cl, ok := r.(*ast.CompositeLit); ok && len(a.Lhs) == 1 {
+							res = append(res, c08Src(rel, cl.Type))
+							for _, el := range cl.Elts {
+								res = append(res, c08Src(rel, el))
+							}
+						} else {
+							res = append(res, c08Src(rel, a))
+						}
+						break
+					}
+				}
+			}
+			return true
+		})
+	}
+	return res
+}
+
+// c09AssignsTo: source text of every assignment whose left side is one of names, source order
+func c09AssignsTo(rel string, node ast.Node, names ...string) []string {
+	var res []string
+	ast.Inspect(node, func(x ast.Node) bool {
+		if a, ok := x.(*ast.AssignStmt); ok {
+			for _, l := range a.Lhs {
+				if has(names, c08Src(rel, l)) {
+					res = append(res, c08Src(rel, a))
+					break
+				}
+			}
+		}
+		return true
+	})
+	return res
+}
+
+// c09FieldValue: the composite literal assigned to field `name:` inside the composite literal that
+// node returns / builds (first match), as its list of elements
+func c09FieldValue(rel string, node ast.Node, name string) []string {
+	var res []string
+	done := false
+	ast.Inspect(node, func(x ast.Node) bool {
+		if kv, ok := x.(*ast.KeyValueExpr); ok && !done && c08Src(rel, kv.Key) == name {
+			done = true
+			if cl, ok := kv.Value.(*ast.CompositeLit); ok {
+				res = append(res, c08Src(rel, cl.Type))
+				for _, el := range cl.Elts {
+					res = append(res, c08Src(rel, el))
+				}
+			} else {
+				res = append(res, c08Src(rel, kv.Value))
+			}
+		}
+		return true
+	})
+	return res
+}
+
+func factsC09Ctx() {
+	// ---- C09: the declaring context of the annotations of a Service (Model/C09Ctx.lean)
+	ing := "pkg/converters/ingress/ingress.go"
+	gw := "pkg/converters/gateway/gateway.go"
+	ab := methodDecl(ing, "converter", "addBackendWithClass")
+	addStrList("c09AddBackendGetService", c09CallArgs(ing, ab, "c.cache.GetService", 0, 2),
+		"ingress.go addBackendWithClass: (defaultNamespace, name) of the GetService that reaches the Service = the REFERENCING source's namespace")
+	addStrList("c09AddBackendSvcSource", c09SourceOf(ing, ab, "mapper.AddAnnotations", 0),
+		"ingress.go addBackendWithClass: the Source attached to the annotations read from the Service (first mapper.AddAnnotations)")
+	addStrList("c09AddBackendNamespace", c09AssignsTo(ing, ab, "ssvcName", "namespace", "svcName"),
+		"ingress.go addBackendWithClass: where `namespace` and `svcName` of that Source come from (the Service's full name)")
+	addStrList("c09AddBackendAnnSources", c09CallArgs(ing, ab, "mapper.AddAnnotations", 2, 3),
+		"ingress.go addBackendWithClass: what each mapper.AddAnnotations adds (Service annotations first, then the referencing object's, then the IngressClass parameters)")
+	ra := methodDecl(ing, "converter", "ReadAnnotations")
+	addStrList("c09ReadAnnotationsSource", c09SourceOf(ing, ra, "c.readAnnotations", 0),
+		"ingress.go ReadAnnotations (Gateway API flow): the Source of a Service's annotations")
+	addStrList("c09DefaultBackSource", c09FieldValue(ing, funcDecl(ing, "NewIngressConverter"), "defaultBackSource"),
+		"ingress.go NewIngressConverter: defaultBackSource has no Namespace (empty = command-line / global context)")
+	sdb := methodDecl(ing, "converter", "syncDefaultBackend")
+	addStrList("c09DefaultBackendCall", c09CallArgs(ing, sdb, "c.addBackend", 0, 5),
+		"ingress.go syncDefaultBackend: the command-line Service is reached with the namespace-less source and no annotation of its own")
+	var pre []string
+	for _, a := range c09CallArgs(ing, methodDecl(ing, "converter", "syncIngressHTTP"), "c.addBackend", 0, 5) {
+		if strings.Contains(a, "authSvcName") {
+			pre = append(pre, a)
+		}
+	}
+	addStrList("c09AuthURLPrebuild", pre, "ingress.go syncIngressHTTP: the pre-build of the auth-url Service (referencing source = the Ingress)")
+	addStrList("c09GatewayBackendRefService", c09CallArgs(gw, methodDecl(gw, "converter", "createBackend"), "c.cache.GetService", 0, 2),
+		"gateway.go createBackend: backendRefs are read without a default namespace ...")
+	addStrList("c09GatewayBackendRefName", c09AssignsTo(gw, methodDecl(gw, "converter", "createBackend"), "svcName"),
+		"gateway.go createBackend: ... under the ROUTE's namespace (backendRef.namespace is not read)")
 }
